@@ -427,16 +427,25 @@ Theorem tar_duplicate_path_refuted :
 Proof. exact tar_duplicate_path_refuted_thm. Qed.
 Print Assumptions tar_duplicate_path_refuted.
 
-(* mtime(): header time, 0 -> the container file's; REFUTED panic-freedom for a tar header time of 2^63
-   or more (known finding tar_member_mtime_out_of_range) *)
+(* mtime(): header time, 0 -> the container file's; for tar also when the header time is beyond what
+   SystemTime / chrono hold (repaired: formerly a panic, finding tar_member_mtime_out_of_range) *)
 Theorem mtime_of_header_rule : forall m,
   mtime_of_header m = if m =? 0 then MFile else if I64_MAX <? m then MPanic else MSecs m.
 Proof. exact mtime_of_header_thm. Qed.
 Print Assumptions mtime_of_header_rule.
 
-Theorem tar_mtime_panic_refuted : exists m, m < 2 ^ 64 /\ mtime_of_header m = MPanic.
-Proof. exact tar_mtime_panic_refuted_thm. Qed.
-Print Assumptions tar_mtime_panic_refuted.
+Theorem tar_mtime_total : forall m,
+  tar_mtime_of_header m = if (m =? 0) || (CHRONO_MAX_SECS <? m + 86400) then MFile else MSecs m.
+Proof. exact tar_mtime_total_thm. Qed.
+Print Assumptions tar_mtime_total.
+
+Theorem tar_mtime_never_panics : forall m, tar_mtime_of_header m <> MPanic.
+Proof. exact tar_mtime_never_panics_thm. Qed.
+Print Assumptions tar_mtime_never_panics.
+
+Theorem gz_mtime_never_panics : forall m, m < 2 ^ 32 -> mtime_of_header m <> MPanic.
+Proof. exact gz_mtime_never_panics_thm. Qed.
+Print Assumptions gz_mtime_never_panics.
 
 (* decompress_to_ntf: the temporary file holds exactly the decoder's output / the member's data *)
 Theorem ntf_copy_is_plain :
@@ -458,7 +467,8 @@ Theorem ntf_tar_member :
       ntf_tar dstate read mkdec (S (length (toe_data e))) (archive ++ SUBPATH_SEP :: member) es
       = COk (Some (toe_data e,
                    let m := match toe_mtime e with Some m => m | None => 0 end in
-                   if m =? 0 then None else Some (seconds_to_systemtime m))).
+                   if m =? 0 then None
+                   else match seconds_to_systemtime_checked m with Some s => Some (MSecs s) | None => None end)).
 Proof. exact ntf_tar_thm. Qed.
 Print Assumptions ntf_tar_member.
 
